@@ -116,6 +116,26 @@ func (o *Out) Finding(id any, sig, kind, msg string, replay any) {
 	o.Emit(map[string]any{"t": "finding", "case": id, "sig": sig, "kind": kind, "msg": msg, "replay": replay})
 }
 
+// Trace writes one line per case for the determinism self-test (only when
+// VERIF_TRACE is set).  strict: everything that must be a pure function of
+// (seed, case index) when the simulator owns all nondeterminism - decision-trace
+// hashes, step counts, tapes, result digests.  weak: what must be identical even
+// when the library itself iterates a Go map (nd names that routine): signatures,
+// order-free result digests, the workload description.  With VERIF_TRACE=2 the
+// raw parts are included.
+func (o *Out) Trace(id any, nd string, strict []any, weak []any) {
+	mode := os.Getenv("VERIF_TRACE")
+	if mode == "" {
+		return
+	}
+	rs, rw := fmt.Sprint(strict...), fmt.Sprint(weak...)
+	m := map[string]any{"t": "trace", "case": id, "nd": nd, "h": Hash([]byte(rs)), "w": Hash([]byte(rw))}
+	if mode == "2" {
+		m["raw"] = rs + " || " + rw
+	}
+	o.Emit(m)
+}
+
 func (o *Out) Note(msg string) { o.Emit(map[string]any{"t": "note", "msg": msg}) }
 
 func (o *Out) Count(name string, d int64) { o.Counters[name] += d }
